@@ -230,13 +230,27 @@ def make_variant(lines, kind, r):
     return lines
 
 
-def _run(job):
-    import tracer
+class VsgHang(BaseException):
+    pass
 
+
+def _run(job):
+    import tracer, signal
+
+    def on_alarm(sig, frm):
+        raise VsgHang("no result within the per-run time limit")
+
+    # watchdog: a run that does not terminate is a finding of C19, not a check that never ends
+    signal.signal(signal.SIGALRM, on_alarm)
+    signal.alarm(int(os.environ.get("VERIF_JOB_TIMEOUT", "900")))
     try:
         return tracer.run_one(job)
+    except VsgHang as e:
+        return {"path": job["path"], "argv": job["argv"], "status": "hang", "exception": "VsgHang: " + str(e), "records": [], "c18": []}
     except BaseException as e:  # noqa
         return {"path": job["path"], "argv": job["argv"], "status": "harness-error", "exception": repr(e), "records": [], "c18": []}
+    finally:
+        signal.alarm(0)
 
 
 def _check(tp):
